@@ -113,6 +113,14 @@ func (rl *relayouter) layout(toks []Tok, mode int) string {
 	if mode > 0 && rl.r.Intn(3) == 0 {
 		sb.WriteString(rl.ws(1))
 	}
+	if mode == 2 && rl.r.Intn(3) == 0 {
+		// an ordinary comment BEFORE the first token that merely mentions a directive (it does not start with ";;;;"): it
+		// selects nothing
+		c := []string{"; note: to see the raw tree use ;;;; optimize:false", ";; ---- ;;;; reordering:false", ";;; x ;;;; constant_folding:false, fast_evaluation:false",
+			"; ;;;; optimize: false", ";a;;;;reduce_nesting:false", "; kept for reference: ;;;;optimize:false ;;;;"}[rl.r.Intn(6)]
+		sb.WriteString(c + "\n")
+		rl.w.Inc("relayout_comment_mentioning_a_directive_before_first_token")
+	}
 	for i, t := range toks {
 		sb.WriteString(tokText(t))
 		if t.Kind == TkComment {
